@@ -551,6 +551,13 @@ impl Sys {
                 let r = cm.cas_repo_sync_single(&h(ca), 0, krill)?;
                 Ok(format!("ok:{r}"))
             }
+            // C09: are the store-wide recurring maintenance tasks in the queue (pending or running)?
+            ["recurring"] => {
+                let missing: Vec<&str> = [("republish", "all_cas_republish_if_needed"), ("renew", "all_cas_renew_objects_if_needed"),
+                    ("snapshots", "update_stored_snapshots")]
+                    .iter().filter(|(_, n)| !self.task_present(n)).map(|(k, _)| *k).collect();
+                if missing.is_empty() { Ok("ok:all".into()) } else { Ok(format!("ok:missing:{}", missing.join(","))) }
+            }
             // What the API does for "sync with the repository now" (POST /api/v1/cas/{ca}/sync/repo and the bulk
             // variant): it only SCHEDULES the sync task. In the daemon `cas_repo_sync_single` runs on the one
             // scheduler thread alone, so the concurrent stream uses this op on its worker threads - running
